@@ -113,6 +113,8 @@ def _case(draw):
         "module": draw(st.sampled_from(["ufoLib2", "defcon"])),
         "quant": draw(st.sampled_from([1, 1, 5, 10])),
         "group": draw(st.booleans()),
+        # the writer instance has served another font before (different glyphs): nothing of that font may linger in it
+        "first": draw(st.one_of(st.none(), st.none(), mark_font())),
     }
 
 
@@ -174,6 +176,13 @@ def run_case(case, ctx):
     cats = spec["lib"].get("public.openTypeCategories")
     if cats is not None:
         ws.append(GdefFeatureWriter)
+    if case.get("first"):
+        sp1 = {k_: v_ for k_, v_ in case["first"].items() if k_ != "roles"}
+        try:
+            ufo2ft.compileTTF(S.build(sp1, S.ufo_module(case["module"])), useProductionNames=False, featureWriters=ws)
+        except Exception:
+            pass
+        ctx.label("writer-instance-used-on-another-font-first")
     with guard("compileTTF with MarkFeatureWriter"):
         ttf = ufo2ft.compileTTF(f, useProductionNames=False, featureWriters=ws)
         b = io.BytesIO()
